@@ -4,6 +4,7 @@
 import Lean.Data.Json
 import PM
 import PM.RoundTrip
+import PM.RoundTripSchema
 import Driver.Codec
 import Driver.Base
 import Driver.ExtDom
@@ -44,6 +45,54 @@ def selOf (j : Json) : D Sel := do
         return (← str q[0]!, ← str q[1]!)) x))
   return { tag := ← str a[0]!, need := ← listOf str a[1]!, copy := copy }
 
+
+def tpartOf (j : Json) : D TPart := do
+  let a ← arr j
+  match ← str a[0]! with
+  | "l" => return .lit (← str a[1]!).toList
+  | _ => return .attr (← str a[1]!)
+
+def tvalOf (j : Json) : D TVal := do
+  let a ← arr j
+  match ← str a[0]! with
+  | "l" => match a[1]! with
+    | .null => return .lit none
+    | x => return .lit (some (← str x).toList)
+  | _ => return .attr (← str a[1]!)
+
+/-- the encoding of harness/rt_tables.py: template -/
+partial def tspecOf (j : Json) : D TSpec := do
+  let a ← arr j
+  match ← str a[0]! with
+  | "s" => return .str (← str a[1]!).toList
+  | "h" => return .hole
+  | _ =>
+    let attrs ← listOf (fun p => do
+      let q ← arr p
+      return ((← str q[0]!).toList, ← tvalOf q[1]!)) a[2]!
+    return .el (← listOf tpartOf a[1]!) attrs (← listOf tspecOf a[3]!)
+
+def nodeTOf (j : Json) : D NodeT := do
+  let cases ← listOf (fun c => do
+    let q ← arr c
+    return (← attrs q[0]!, ← tspecOf q[1]!)) (← field j "cases")
+  let g ← match ← field j "generic" with
+    | .null => pure none
+    | x => do pure (some (← tspecOf x))
+  return { cases := cases, generic := g }
+
+def toDomTOf (j : Json) : D ToDomT := do
+  return { nodes := ← listOf nodeTOf (← field j "nodes"),
+           marks := ← listOf (fun m => do return { inl := ← nodeTOf (← field m "inl"), blk := ← nodeTOf (← field m "blk") })
+             (← field j "marks"),
+           spanning := ← listOf bool (← field j "spanning") }
+
+def eWS : WS → Json
+  | .unset => Json.null
+  | .off => Json.bool false
+  | .on => Json.bool true
+  | .full => Json.str "full"
+
 def handleRoundTrip (st : St) (op : String) (j : Json) : Option (D (St × Json)) :=
   match op with
   -- export → import of a document:
@@ -58,20 +107,24 @@ def handleRoundTrip (st : St) (op : String) (j : Json) : Option (D (St × Json))
                         tags := ← listOf tagRuleOf (← field j "tags"),
                         styles := ← listOf styleRuleOf (← field j "styles") }
     let R : RParser := { P := P, sel := ← listOf selOf (← field j "sel") }
-    let nodeTab ← listOf (fun e => do
-      let a ← arr e
-      return ((← nat a[0]!, ← attrs a[1]!), ← specOfJson a[2]!)) (← field j "nodeDom")
-    let markTab ← listOf (fun e => do
-      let a ← arr e
-      let sp ← match a[2]! with
-        | .null => pure none
-        | x => do pure (some (← specOfJson x))
-      return ((← mark a[0]!, ← bool a[1]!), sp)) (← field j "markDom")
-    let sp ← listOf bool (← field j "spanning")
-    let D : ToDom := {
-      node := fun t a => ((nodeTab.find? (fun e => e.1.1 == t && e.1.2 == a)).map (·.2)).getD (.str [])
-      mark := fun m inl => ((markTab.find? (fun e => e.1.1 == m && e.1.2 == inl)).map (·.2)).getD none
-      spanning := fun t => sp.getD t true }
+    let D : ToDom ← match fieldD j "toDom" Json.null with
+      | .null => do
+        let nodeTab ← listOf (fun e => do
+          let a ← arr e
+          return ((← nat a[0]!, ← attrs a[1]!), ← specOfJson a[2]!)) (← field j "nodeDom")
+        let markTab ← listOf (fun e => do
+          let a ← arr e
+          let sp ← match a[2]! with
+            | .null => pure none
+            | x => do pure (some (← specOfJson x))
+          return ((← mark a[0]!, ← bool a[1]!), sp)) (← field j "markDom")
+        let sp ← listOf bool (← field j "spanning")
+        pure ({
+          node := fun t a => ((nodeTab.find? (fun e => e.1.1 == t && e.1.2 == a)).map (·.2)).getD (.str [])
+          mark := fun m inl => ((markTab.find? (fun e => e.1.1 == m && e.1.2 == inl)).map (·.2)).getD none
+          spanning := fun t => sp.getD t true } : ToDom)
+      -- the `toDOM` functions as tables (harness/rt_tables.py; the data of lean/Gen/RoundTrip.lean)
+      | t => do pure (← toDomTOf t).toDom
     let doc ← node (← field j "doc")
     let html := serializeDoc S D doc
     let dom := toDomList R.sel html
@@ -79,8 +132,27 @@ def handleRoundTrip (st : St) (op : String) (j : Json) : Option (D (St × Json))
                  ("dom", Json.arr (dom.map eDNode).toArray),
                  ("noStyle", Json.bool (noStyleList html)),
                  ("rtOk", Json.bool (rtOk R D doc)),
+                 ("rtDocOk", Json.bool (rtDocOk R D doc)),
+                 ("rtSchemaOk", Json.bool (rtSchemaOk R D)),
                  ("noMarks", Json.bool (noMarks doc))]
     match roundTrip R D doc with
     | .error e => return (st, Json.mkObj (base ++ [("err", errName e)]))
     | .ok d => return (st, Json.mkObj (base ++ [("doc", eNode d)]))
+  -- the schema part alone: {s, groups, wsPre, tags, styles, sel, toDom} -> {rtSchemaOk, forms, markPatterns}
+  | "rtSchema" => some do
+    let S ← getSchema st j
+    let G ← groupTable (← field j "groups")
+    let wp ← listOf bool (← field j "wsPre")
+    let P : Parser := { S := S, G := G, wsPre := fun t => wp.getD t false,
+                        tags := ← listOf tagRuleOf (← field j "tags"),
+                        styles := ← listOf styleRuleOf (← field j "styles") }
+    let R : RParser := { P := P, sel := ← listOf selOf (← field j "sel") }
+    let D := (← toDomTOf (← field j "toDom")).toDom
+    return (st, Json.mkObj [
+      ("rtSchemaOk", Json.bool (rtSchemaOk R D)),
+      ("forms", Json.arr ((formTable R D).map (fun (t, a, f) => Json.arr #[jn t, eAttrs a,
+        match f with
+        | none => Json.null
+        | some (tag, pw) => Json.arr #[Json.str tag, eWS pw]])).toArray),
+      ("markPatterns", Json.arr ((markPatterns R).map (fun m => Json.arr #[eMark m, Json.bool (markRule R D m true)])).toArray)])
   | _ => none
